@@ -105,6 +105,94 @@ def _conv(stmts: List[ast.stmt], repl) -> Tuple[List[ast.stmt], bool]:
     return out, False
 
 
+def _returns_at_loop_depth(loop) -> bool:
+    """True iff every `return` inside `loop` sits at loop depth 1 (not in a nested loop / def)."""
+    def walk(stmts, depth_ok):
+        for st in stmts:
+            if isinstance(st, ast.Return):
+                if not depth_ok:
+                    return False
+            elif isinstance(st, (ast.While, ast.For)):
+                if _contains_return(st):
+                    return False
+            elif isinstance(st, (ast.FunctionDef, ast.AsyncFunctionDef, ast.ClassDef)):
+                continue
+            else:
+                for field in ("body", "orelse", "finalbody"):
+                    blk = getattr(st, field, None)
+                    if isinstance(blk, list) and blk and isinstance(blk[0], ast.stmt):
+                        if not walk(blk, depth_ok):
+                            return False
+                for h in getattr(st, "handlers", []) or []:
+                    if not walk(h.body, depth_ok):
+                        return False
+        return True
+    return walk(loop.body, True)
+
+
+def _has_break_at_depth1(loop) -> bool:
+    def walk(stmts):
+        for st in stmts:
+            if isinstance(st, ast.Break):
+                return True
+            if isinstance(st, (ast.While, ast.For, ast.FunctionDef, ast.AsyncFunctionDef, ast.ClassDef)):
+                continue
+            for field in ("body", "orelse", "finalbody"):
+                blk = getattr(st, field, None)
+                if isinstance(blk, list) and blk and isinstance(blk[0], ast.stmt) and walk(blk):
+                    return True
+            for h in getattr(st, "handlers", []) or []:
+                if walk(h.body):
+                    return True
+        return False
+    return walk(loop.body)
+
+
+class _RetToBreak(ast.NodeTransformer):
+    def __init__(self, repl):
+        self.repl = repl
+
+    def visit_Return(self, n):
+        return self.repl(n) + [ast.Break()]
+
+    def visit_While(self, n):
+        return n
+
+    def visit_For(self, n):
+        return n
+
+    def visit_FunctionDef(self, n):
+        return n
+
+    def visit_Lambda(self, n):
+        return n
+
+
+def _conv_loop_tail(stmts: List[ast.stmt], repl, mode) -> List[ast.stmt]:
+    """Helpers of the form `<straight-line statements>; <loop>` whose returns are all directly inside the final
+    loop: `return E` becomes `<use E>; break`.  Sound because nothing follows the loop in the helper."""
+    if not stmts or not isinstance(stmts[-1], (ast.While, ast.For)):
+        raise NotInlinable("not loop-tail form")
+    loop = stmts[-1]
+    if loop.orelse or any(_contains_return(st) for st in stmts[:-1]) or not _returns_at_loop_depth(loop):
+        raise NotInlinable("returns outside the final loop")
+    if mode != "drop":
+        # a value is produced: the loop must be left only through `return`
+        forever = isinstance(loop, ast.While) and isinstance(loop.test, ast.Constant) and loop.test.value is True
+        if not forever or _has_break_at_depth1(loop):
+            raise NotInlinable("loop can end without returning")
+    tr = _RetToBreak(repl)
+    new_body = []
+    for st in loop.body:
+        r = tr.visit(st)
+        new_body.extend(r if isinstance(r, list) else [r])
+    if isinstance(loop, ast.While):
+        new_loop = ast.While(test=loop.test, body=new_body, orelse=[])
+    else:
+        new_loop = ast.For(target=loop.target, iter=loop.iter, body=new_body, orelse=[], type_comment=None)
+    return list(stmts[:-1]) + [new_loop]
+
+
 class _Subst(ast.NodeTransformer):
     def __init__(self, mapping: Dict[str, ast.expr], rename: Dict[str, str]):
         self.mapping = mapping
@@ -304,7 +392,17 @@ class Inliner:
                 return []  # `x = x`
             # `x = y` where y is a callee local that the caller never uses: avoid the alias by renaming
             return [ast.Assign(targets=[tgt], value=val)]
-        new, _term = _conv(body, repl)
+        if mode == "keep":
+            # `return helper(...)`: the helper's own returns are the caller's returns, whatever its shape
+            new = body
+            last = new[-1] if new else None
+            if not isinstance(last, (ast.Return, ast.Raise)):
+                new = new + [ast.Return(value=None)]
+        else:
+            try:
+                new, _term = _conv(body, repl)
+            except NotInlinable:
+                new = _conv_loop_tail(body, repl, mode)
         tr = _Subst(subst, rename)
         new = [tr.visit(s) for s in new]
         out = pre + new
